@@ -9,17 +9,17 @@ VERIF = os.path.dirname(os.path.dirname(os.path.abspath(__file__)))
 CHECKS = {
 	'C13': dict(
 		category='exploration', design_ref='DESIGN.md 4.1',
-		technique='deterministic simulation: seeded completion-order scheduler over a simulated concurrent.futures pool, read-fault injection, exhaustive permutation arm for n<=5/6',
+		technique='deterministic simulation: seeded completion-order scheduler over a simulated concurrent.futures pool (atomic task bodies, or real threads pre-empted at line events), read/pool faults (EIO, worker death, interrupt, owner cancels queue, deferred done-callbacks), exhaustive permutation arm for n<=5/6',
 		text='Seeded search over task completion orders, worker counts, concurrency modes and read/pool faults of the real calc_file_signatures '
 		     'running on a simulated executor; for small file counts every completion permutation is enumerated with an unreadable file at every position. '
-		     'Oracle is the single-file function run alone. A clean batch is evidence over the sampled schedules (plus a complete enumeration for n<=5/6), not a proof.',
+		     'Oracle is the single-file function run alone plus inputs that are unreadable by construction. Thread-pool task bodies are interleaved at line granularity in 40% of the thread executions; inputs include named pipes, paths through symlinked directories with .., relative paths, and rare batches of 500-1000 files. A clean batch is evidence over the sampled schedules (plus a complete enumeration for n<=5/6), not a proof.',
 		note='Trusts: the simulated pool follows concurrent.futures semantics (checked against the real pools by the fidelity self-test); task bodies run atomically at completion; '
 		     'native k-mer code as built from the generated C in /repo (no Cython in the sandbox).'),
 }
 
 CHECKS['C05'] = dict(
 	category='exploration', design_ref='DESIGN.md 4.2',
-	technique='deterministic simulation: seeded OpenMP dynamic hand-out (LD_PRELOAD shim replacing the libgomp dispenser), swarm over team size, chunking, containers, index selections and output buffers',
+	technique='deterministic simulation: seeded OpenMP dynamic hand-out (LD_PRELOAD shim replacing the libgomp dispenser), swarm over team size, chunking, containers (incl. mixed-width lists, file-backed with one-shot read faults), index selections, query subsets and output buffers',
 	text='Seeded search over OpenMP team sizes (1..16), thread-to-iteration assignments and execution orders of the real compiled kernel, combined with drawn chunk sizes, '
 	     'reference containers (in-memory, list, plain list, HDF5 file with each filter), 6x6 dtype pairs, index selections with repeats and caller-supplied/poisoned/strided buffers; '
 	     'every cell is compared as a 32-bit pattern with the two-signature function. Sampling, not proof.',
@@ -30,31 +30,31 @@ CLI_NOTE = ('Trusts: simulated pool and OpenMP dispenser stand-ins (fidelity sel
             'gambit.cli.cli.main(standalone_mode=False); task bodies atomic; extension modules as built from the generated C.')
 CHECKS['C08'] = dict(
 	category='exploration', design_ref='DESIGN.md 4.3',
-	technique='deterministic simulation of the real query command: seeded pool completion order, OpenMP hand-out, short reads, chunk/machine-size/left-over-thread knobs; per-row reference executions as oracle',
+	technique='deterministic simulation of the real query command: seeded pool completion order, OpenMP hand-out, short reads, injected worker death / read errors (fail-or-fully-correct oracle), failing commands as context, chunk/machine-size/left-over-thread/tuning-knob swarm, decoy working directory; per-row reference executions as oracle',
 	text='Seeded search over batches, orderings, input channels, formats, -c values, chunk sizes, completion orders of the parsing pool and OpenMP hand-outs of the real query command run in-process in generated worlds; '
 	     'every row is compared with the row the same genome produces alone and with an independent label model. Sampling, not proof.',
 	note=CLI_NOTE + ' The chunk size reaches the command through the module-level QueryParams name because the CLI exposes no option; a third of the commands use the public API instead.')
 CHECKS['C09'] = dict(
 	category='exploration', design_ref='DESIGN.md 4.4',
-	technique='deterministic simulation with held ambient configuration: three NumPy CPU-dispatch settings x OpenMP team size/hand-out x chunk size x list length on tie-rich databases; sort-model invariant checked on every result item',
+	technique='deterministic simulation with held ambient configuration: three NumPy CPU-dispatch settings x OpenMP team size/hand-out x chunk size x list length on tie-rich databases, one database object reused across executions with in-memory threshold edits; sort-model invariant checked on every result item',
 	text='Every result item of every simulated query execution is checked against the (distance, reference index) sort model, under three NumPy CPU-feature dispatch settings (run groups share one choice sequence), '
 	     'drawn thread counts, hand-outs, chunk sizes and list lengths, on generated databases where tied distances are routine; CSV/JSON agreement through the CLI in a tenth of the runs. No fault is injected (the statement names none). Sampling, not proof.',
 	note=CLI_NOTE + ' Dispatch settings are limited to what NPY_DISABLE_CPU_FEATURES can switch on this CPU.')
 CHECKS['C16'] = dict(
 	category='exploration', design_ref='DESIGN.md 4.5',
-	technique='deterministic simulation of the real dist command: seeded pool completion order for both sides, OpenMP hand-out, short reads; cell-by-cell oracle from single-file reference executions and a four-decimal rounding model',
+	technique='deterministic simulation of the real dist command: seeded pool completion order for both sides, OpenMP hand-out, short reads, injected worker death / read errors (fail-or-fully-correct), failing commands as context, tuning-knob swarm, decoy working directory; cell-by-cell oracle from single-file reference executions and a four-decimal rounding model',
 	text='Seeded search over the 3 x 5 ways of supplying queries and references, k/p options, -c, completion orders and hand-outs of the real dist command in generated worlds; header, row labels, row order and every cell text are checked, --square also against the twin command. Sampling, not proof.',
 	note=CLI_NOTE + ' Parameter mismatches are not generated (C14).')
 CHECKS['C17'] = dict(
 	category='exploration', design_ref='DESIGN.md 4.6',
-	technique='deterministic simulation of the real tree command: seeded pool completion order, OpenMP hand-out; independent Newick reader and tie-branching UPGMA reference model',
+	technique='deterministic simulation of the real tree command: seeded pool completion order, OpenMP hand-out, injected worker death / read errors (fail-or-fully-correct), failing commands as context, tuning-knob swarm; independent Newick reader and tie-branching UPGMA reference model',
 	text='Seeded search over input channels, label sets with repeats, tied/zero distances, -c, completion orders and hand-outs of the real tree command; the printed tree must be binary, ultrametric, carry exactly the input labels and match some admissible average-linkage clustering of the expected distances. Sampling, not proof.',
 	note=CLI_NOTE + ' The clustering arithmetic is a pure function; simulation only decides leaf-to-genome attachment under completion orders.')
 
 CHECKS['C19'] = dict(
 	category='fault_enumeration', design_ref='DESIGN.md 4.8',
-	technique='crash-point enumeration under simulated process death: SIGKILL at every h5py call boundary and every write-class system call (LD_PRELOAD shim), torn multi-page writes; real loader as recovery',
-	text='For every sampled write (collection, container/write path, compression, payload size, fresh or pre-existing target, library or CLI writer) every h5py call boundary and every write-class system call on the target file is used as a crash point once, '
+	technique='crash-point enumeration under simulated process death: SIGKILL at every h5py call boundary and every write-class system call (LD_PRELOAD shim), torn multi-page writes, SIGINT (KeyboardInterrupt) at every boundary and SIGTERM at a drawn subset; real loader as recovery',
+	text='For every sampled write (collection, container/write path, compression, payload size, fresh or pre-existing target, library or CLI writer) every h5py call boundary and every write-class system call on the target file is used as a crash point once (SIGKILL), every boundary again with the writer dying from SIGINT (unwinding as Python does) and a drawn subset with SIGTERM, '
 	     'plus torn variants of multi-page writes; the survivor is examined by the real loader in a separate process. Crash points per write are enumerated completely; the space of writes is sampled.',
 	note='Trusts: a killed process leaves exactly the effects of its completed system calls (page-multiple prefix for a torn write); power-loss reordering/page-cache loss not modelled; '
 	     'h5py/libhdf5 as installed; pwkill interposes libc write-class calls reached through the PLT (verified for the h5py wheel).')
@@ -68,7 +68,7 @@ CHECKS['C20'] = dict(
 
 CHECKS['C18'] = dict(
 	category='exploration', design_ref='DESIGN.md 4.7',
-	technique='deterministic simulation of operation histories against a database directory: real commands in-process, session abuse, failing commands, KeyboardInterrupt and SIGKILL at the k-th line event; file hashes, SQL statement monitor and commit behaviour checked after every operation',
+	technique='deterministic simulation of operation histories against a database directory: real commands in-process, session abuse, failing commands, KeyboardInterrupt and SIGKILL at the k-th line event, WAL-mode databases, direct DML through the default session; file hashes, SQL statement monitor and commit behaviour checked after every operation',
 	text='Seeded histories of 1-10 (thorough 25) operations - commands, library calls, session abuse on the default session obtained four ways, failing commands, commands interrupted or SIGKILLed at a drawn line event - against a generated database directory; '
 	     'after every operation both files must hash to their initial value, no write-class SQL statement may have reached the database, and commit() must have raised. Sampling of histories, not proof.',
 	note=CLI_NOTE + ' Interrupt/kill points are Python line events in gambit frames (sys.settrace), not instructions inside NumPy/h5py/SQLite calls; killed commands run in a child forked from a zygote that never ran OpenMP.')
